@@ -71,6 +71,7 @@ def chunkLoop (src : Bytes) (q : Nat) : Nat → Nat → List Chunk → Res (List
       let p := i * (l4winbox_MessageChunkBytesMax + 2)
       let len ← idx src p "winbox.src[p]"
       if (q > 1 ∧ i < q - 1 ∧ len.toNat ≠ l4winbox_MessageChunkBytesMax) ∨ src.length < p + 2 + len.toNat ∨
+          (i = q - 1 ∧ src.length ≠ p + 2 + len.toNat) ∨
           len.toNat < l4winbox_MessageChunkBytesMin then .err "incorrect"
       else do
         let ty ← idx src (p + 1) "winbox.src[p+1]"
